@@ -73,9 +73,12 @@ End ==
           ELSE IF e.kind = "config"
             THEN IF \E s \in w : cfgref[s.icfg] = e.fp THEN bad
                  ELSE bad \cup {<<l, "Config() is not the normal form of any state that was current during the call">>}
-          ELSE IF e.kind = "reconf"
-            THEN IF e.err = (e.op = "reconf:invalid") THEN bad
-                 ELSE bad \cup {<<l, "Reconfigure returned the wrong kind of result">>}
+          ELSE IF e.kind = "reconf" /\ e.err # (e.op = "reconf:invalid")
+            THEN bad \cup {<<l, "Reconfigure returned the wrong kind of result">>}
+          \* the call wrote nothing (no write section, no atomic store): it can be linearised at any point of its duration, so it
+          \* is right exactly when it is a no-op in SOME state that was current while it ran
+          ELSE IF e.kind \in {"reconf", "setdebug"} /\ e.nowrite /\ ~(\E s \in w : Apply(s, e.op) = s)
+            THEN bad \cup {<<l, "the call returned without changing anything although it is not a no-op in any state that was current during the call">>}
           ELSE bad
      /\ stats' = [stats EXCEPT !.requests = @ + (IF e.kind = "request" THEN 1 ELSE 0),
                                !.raced = @ + (IF e.kind = "request" /\ Cardinality(w) > 1 THEN 1 ELSE 0)]
